@@ -185,6 +185,41 @@ fn main() {
         for (n, p) in short { blob(&mut cx, p, &format!("ends-early-{}", n.split('-').take(2).collect::<Vec<_>>().join("-"))); }
     }
 
+    // ---- 0b. key packets of every algorithm (public and secret certificates): at every offset inside a key packet, a two-octet
+    //          field of 0000 / 0001 / 0008 / ffff (MPI bit counts of zero and of one octet, curve-OID lengths, ...), and the 33
+    //          octets behind a two-octet field zeroed (an MPI that is empty once its leading zeros are stripped)
+    {
+        use pgp::ser::Serialize;
+        let mut certs: Vec<(String, Vec<u8>)> = Vec::new();
+        let mut all: Vec<SignedSecretKey> = keys.iter().cloned().collect();
+        for (i, (p, sub)) in [(KeyType::ECDSA(ECCCurve::P384), KeyType::ECDH(ECCCurve::P384)), (KeyType::ECDSA(ECCCurve::P521), KeyType::ECDH(ECCCurve::P521)), (KeyType::ECDSA(ECCCurve::Secp256k1), KeyType::ECDH(ECCCurve::P256))].into_iter().enumerate() {
+            if let Ok(k) = guarded(|| enc_key(KeyVersion::V4, p.clone(), sub.clone(), 420 + i as u64)) { all.push(k); }
+        }
+        for (i, k) in all.iter().enumerate() {
+            if let Ok(b) = SignedPublicKey::from(k.clone()).to_bytes() { certs.push((format!("public-{i}"), b)); }
+            if let Ok(b) = k.to_bytes() { certs.push((format!("secret-{i}"), b)); }
+        }
+        for (name, cert) in &certs {
+            // the key packets inside: (offset of body, length of body)
+            let mut spans: Vec<(usize, usize)> = Vec::new(); let mut pos = 0usize;
+            while pos + 2 <= cert.len() {
+                let h = cert[pos]; let tag = if h & 0x40 != 0 { h & 0x3f } else { (h >> 2) & 0x0f };
+                let (hl, bl) = if h & 0x40 != 0 { match cert[pos + 1] { x @ 0..=191 => (2, x as usize), x @ 192..=223 => if pos + 3 <= cert.len() { (3, ((x as usize - 192) << 8) + cert[pos + 2] as usize + 192) } else { break }, 255 => if pos + 6 <= cert.len() { (6, u32::from_be_bytes([cert[pos + 2], cert[pos + 3], cert[pos + 4], cert[pos + 5]]) as usize) } else { break }, _ => break } }
+                               else { match h & 3 { 0 => (2, cert[pos + 1] as usize), 1 => if pos + 3 <= cert.len() { (3, u16::from_be_bytes([cert[pos + 1], cert[pos + 2]]) as usize) } else { break }, _ => break } };
+                if pos + hl + bl > cert.len() { break; }
+                if matches!(tag, 5 | 6 | 7 | 14) { spans.push((pos + hl, bl)); }
+                pos += hl + bl;
+            }
+            for (start, len) in spans {
+                let step = if thorough || len <= 120 { 1 } else { 3 };
+                for o in (start..start + len.saturating_sub(1)).step_by(step) {
+                    for v in [[0u8, 0], [0, 1], [0, 8], [0xff, 0xff]] { let mut d = cert.clone(); d[o] = v[0]; d[o + 1] = v[1]; blob(&mut cx, d, &format!("key-field-extremes-{}", &name[..6])); }
+                    let mut d = cert.clone(); let end = (o + 2 + 33).min(start + len); for x in &mut d[(o + 2).min(end)..end] { *x = 0; } blob(&mut cx, d, &format!("key-field-zeroed-{}", &name[..6]));
+                }
+            }
+        }
+    }
+
     // ---- 1. attacker-chosen session-key plaintext behind valid public-key encryption
     for (ki, key) in keys.iter().enumerate() {
         let pk = SignedPublicKey::from(key.clone());
